@@ -24,16 +24,37 @@
 (*                   := 0 if piecewise; permutation slot :=                *)
 (*                   quadrature_permutation if is_permuted else 0          *)
 (*                                                                         *)
+(*   (Start          picks the description of this behaviour; not a step   *)
+(*                   of the code)                                          *)
+(*                                                                         *)
+(* Invariants (one INVARIANT line each in the configuration):              *)
+(*   ClampSound      exactly the entries within the CONFIGURED tolerance   *)
+(*                   of -1, 0, 1 were replaced                             *)
+(*   TypeSound       the ttype is what the clamped table IS (declarative   *)
+(*                   TableSpace!Means, every permutation slice)            *)
+(*   ShapeConsistent the index the generators form is inside the reduced   *)
+(*                   shape                                                 *)
+(*   AccessFaithful  the value read is the clamped raw value up to the     *)
+(*                   tolerance-sized substitutions that really happened    *)
+(*                   (TableSpace!Budget; 0 of them = exactly equal)        *)
+(*   DedupeWithinTol the table used is the first existing one of the same  *)
+(*                   shape within tolerance, else the table itself         *)
+(*   PermMinimal     a permutation axis is kept iff the kept slots differ  *)
+(*                                                                         *)
 (* Universe: Dims = <<P, E, Q, D>> (2 x 2 x 2 x 2) over the structured     *)
 (* generators of TableSpace (base pattern + one perturbation + second      *)
-(* table), restricted to what the model claims to decide:                  *)
+(* table).  Measured: "quick" 74 001 distinct states (48 initial, 5 335    *)
+(* behaviours), "thorough" 2 036 684 distinct states; every action taken,  *)
+(* every ttype reached (harness/s7.py checks the coverage).  The universe  *)
+(* is restricted to what the model claims to decide:                       *)
 (*   EdgeFree    no comparison on a knife edge of a tolerance              *)
 (*   Admissible  slice 0 is representative (true for real elements: slice  *)
 (*               p is the same functions at permuted points).  With        *)
-(*               AssumeCoherent = FALSE TLC must refute AccessFaithful:    *)
-(*               the code's slice-0-only analysis RELIES on it.            *)
+(*               AssumeCoherent = FALSE TLC refutes TypeSound and          *)
+(*               AccessFaithful: the code's slice-0-only analysis RELIES   *)
+(*               on it.                                                    *)
 (* Bug # "none" switches on one deviation; TLC must refute the invariant   *)
-(* named in harness/s7.py (design-level negative controls).                *)
+(* named in harness/s7.py::MODEL_BUGS (design-level negative controls).    *)
 (***************************************************************************)
 EXTENDS TableSpace
 
@@ -57,7 +78,7 @@ VARIABLES gen,       \* the base pattern chosen by Init
           ttype, isperm,
           reg,       \* register of existing tables: sequence of [name, tbl]
           out,       \* finished UniqueTableReferenceT projections
-          req, got   \* access request <<table, p, e, q, d>> and what the index rule reads
+          req, got   \* access request <<table, p, e, q>> and what the index rule reads (slot, the row of dof values)
 vars == <<gen, raws, ctolName, i, pc, tbl, clamped, ttype, isperm, reg, out, req, got>>
 
 ---------------------------------------------------------------------------
@@ -68,13 +89,13 @@ UBases ==
       pat == {[kind |-> "pattern", S |-> s, m0 |-> m] : s \in Subsets(Axes), m \in (IF Universe = "quick" THEN {0} ELSE {-4, 0, 3})}
   IN simple \cup ident \cup pat
 UPerts ==
-  LET cls == IF Universe = "quick" THEN {"in", "out", "mid", "ramp"} ELSE PertClasses \ {"none"}
-      pds == IF Universe = "quick" THEN {0} ELSE {0, Dims[4] - 1}
+  LET cls == IF Universe = "quick" THEN {"in", "out", "ramp"} ELSE PertClasses \ {"none"}
+      pds == {0}                                   \* the dof axis is never reduced: one dof position is enough
       all == {[cls |-> c, pp |-> pp, pe |-> pe, pq |-> pq, pd |-> pd, ext |-> x] :
                 c \in cls, pp \in {0, Dims[1] - 1}, pe \in {0, Dims[2] - 1}, pq \in {0, Dims[3] - 1}, pd \in pds, x \in PertExts}
   IN {[cls |-> "none", pp |-> 0, pe |-> 0, pq |-> 0, pd |-> 0, ext |-> "entry"]} \cup {p \in all : PertOK(p, Dims)}
 USeconds == IF Universe = "quick" THEN {"none", "within", "straddle"} ELSE Seconds
-UOrders == IF Universe = "quick" THEN {"12"} ELSE {"12", "21"}
+UOrders == IF Universe = "quick" THEN {"12"} ELSE {"12", "21"}        \* "21": the second table is processed first
 
 TableOK(T, tn) ==
   LET C == ClampT(T, TolNamed(tn))
@@ -102,7 +123,7 @@ Start ==
        LET T1 == PrimaryTab(Dims, gen, pt)
            T2 == SecondTab(Dims, T1, s)
            rs == IF s = "none" THEN <<T1>> ELSE IF o = "12" THEN <<T1, T2>> ELSE <<T2, T1>>
-       IN /\ (s = "none" => o = "12")
+       IN /\ (s \in {"none", "zeros", "const", "different"} => o = "12")
           /\ \A k \in 1..Len(rs) : TableOK(rs[k], ctolName)
           /\ raws' = rs /\ tbl' = rs[1] /\ clamped' = rs[1]
   /\ pc' = "clamp"
@@ -170,18 +191,20 @@ DedupeHit == pc = "dedupe" /\ DedupeTo(TRUE)
 DedupeNew == pc = "dedupe" /\ DedupeTo(FALSE)
 Dedupe == DedupeHit \/ DedupeNew
 
-\* the generators' index rule; every admissible request on the table processed last (quick) / on every table
+\* the generators' index rule; every admissible request (permutation, entity, point; all dofs at once) on the
+\* table processed last (quick) / on every table
 Access ==
   /\ pc = "access"
   /\ \E t \in (IF Universe = "quick" THEN {Len(raws)} ELSE 1..Len(raws)),
-        p \in 1..Dims[1], e \in 1..Dims[2], q \in 1..Dims[3], d \in 1..Dims[4] :
+        p \in 1..Dims[1], e \in 1..Dims[2], q \in 1..Dims[3] :
        LET res == out[t]
-           s == Slot(res, p, e, q, d, Bug)
+           s == Slot(res, p, e, q, 1, Bug)
            ok == InShape(res.final, s)
-       IN /\ req' = <<t, p, e, q, d>>
+       IN /\ req' = <<t, p, e, q>>
           /\ got' = [slot |-> s, inshape |-> ok,
-                     val |-> IF res.ttype = "zeros" THEN Zero ELSE IF res.ttype = "ones" THEN One
-                             ELSE IF ok THEN At(res.final, s) ELSE Zero]
+                     row |-> [d \in 1..Dims[4] |->
+                               IF res.ttype = "zeros" THEN Zero ELSE IF res.ttype = "ones" THEN One
+                               ELSE IF ok THEN At(res.final, <<s[1], s[2], s[3], d>>) ELSE Zero]]
   /\ pc' = "done"
   /\ UNCHANGED <<gen, raws, ctolName, i, tbl, clamped, ttype, isperm, reg, out>>
 
@@ -213,7 +236,8 @@ ShapeConsistent == pc = "done" => got.inshape
 AccessFaithful ==
   (pc = "done" /\ got.inshape) =>
     LET res == out[req[1]]
-    IN Within(got.val, At(res.clamped, <<req[2], req[3], req[4], req[5]>>), Budget(res, res.clamped), ClassTol)
+    IN \A d \in 1..Dims[4] :
+         Within(got.row[d], At(res.clamped, <<req[2], req[3], req[4], d>>), Budget(res, res.clamped), ClassTol)
 
 \* dedupe: the table used is the FIRST existing one of the same shape within tolerance, else the table itself
 JustDeduped == pc \in {"clamp", "access"} /\ Len(out) >= 1
